@@ -1622,7 +1622,38 @@ def C03(tier, seed):
                           "origin": "stress",
                           # a format function that rejects some records after writing a part of the line
                           "failfmt": (i % 4 == 0 and out == "file" and c["mode"] != "async")})
+        # conform mode for free-running threads (TraceFlwConc.tla): stress runs whose events are recorded
+        ntraced = 36 if tier == "quick" else 480
+        for i in range(ntraced):
+            mode = ["direct", "buf", "async", "bufflush", "async", "direct"][i % 6]
+            c = {"mode": mode, "naming": rng.choice(["Num", "NumD", "Ts", "TsD"]), "rot": i % 5 != 4,
+                 "size": rng.choice([60, 300, 2000]), "crlf": False, "bg": i % 7 == 3}
+            if c["bg"]:
+                c["m"] = 100000                                 # compress everything in the background thread, remove nothing
+            if mode == "async":
+                c.update({"pool": rng.choice([1, 2, 50]), "mcapa": rng.choice([8, 32, 200]), "flush_ms": rng.choice([0, 0, 1])})
+            if mode in ("buf", "bufflush"):
+                c["cap"] = rng.choice([8, 64, 256, 8192])
+            if mode == "bufflush":
+                c["flush_ms"] = 1
+            threads = rng.choice([2, 3, 4, 8] if tier == "quick" else [2, 4, 8, 16])
+            per = rng.choice([8, 20, 40]) if tier == "quick" else rng.choice([20, 60, 120])
+            scens.append({"sc": len(scens) + 1, "kind": "stress", "out": "file", "cfg": c, "threads": threads, "per": per,
+                          "rawmix": False, "failfmt": False, "trace": True,
+                          "lens": [max(9, x) for x in rng.sample([9, 12, 33, 63, 64, 65, c.get("cap", 64) + 1,
+                                                                   c.get("mcapa", 32) + 1, 250], 5)],
+                          "noise": rng.randrange(1, 2 ** 31), "origin": "stress:traced"})
         res = C.run_sharded(pid, "MonC03", scens, wd, sub="conc")
+        cfc = C.conform_conc(res["traces"], wd)
+        C.log(f"[C03] conform mode for free-running threads (TraceFlwConc.tla): {cfc['scenarios']} executions / {cfc['events']} "
+              f"recorded events (log call begin/end, hook points inside the critical section, at the channel and in the writer "
+              f"thread, shutdown) checked against FlwConc.tla - "
+              + ("all accepted: every event is a step of the specification, every returned call is acknowledged in its state, "
+                 "and the files hold exactly the specification's sequence"
+                 if not cfc["drifts"] else f"{len(cfc['drifts'])} not accepted"))
+        for (dsc, dn, dev) in cfc["drifts"][:10]:
+            C.log(f"NOTE conformance-drift: scenario {dsc} event {dn} ({dev}) is not a step of FlwConc.tla - the code no longer "
+                  f"follows the detailed model there (no property verdict; the monitor decides the property)")
         C.log(f"[C03] {nsched} TLC schedules replayed deterministically (output order must equal the specified order) + {nstress} "
               f"stress runs (2-16 threads, seeded scheduling noise; file / stdout / stderr): {res['scenarios']} executions; judged by "
               f"MonC03.tla in {res['wall_s']}s; {len(res['bads'])} predicate failures; counters {res['counts']}")
@@ -1652,7 +1683,11 @@ def C03(tier, seed):
                        "buffer and pool capacities, size rotation under every naming, modes direct/buffered/buffer+flush/async "
                        "(pool 1-50, message capacity 8-200), outputs file, stdout, stderr (child process), seeded yield/sleep "
                        "noise at the hook points",
-               "samples": samples, "model_checking_runs": mc_stats, "schedules_replayed": nsched, "stress_runs": nstress,
+               "samples": samples, "model_checking_runs": mc_stats, "schedules_replayed": nsched, "stress_runs": nstress + ntraced,
+               "conform_mode_threads": {"spec": "TraceFlwConc.tla", "traces_checked": cfc["scenarios"],
+                                        "events_checked": cfc["events"],
+                                        "accepted": cfc["scenarios"] - len({d[0] for d in cfc["drifts"]}),
+                                        "drifts": [{"sc": d[0], "n": d[1], "ev": d[2]} for d in cfc["drifts"][:20]]},
                "monitor": "MonC03.tla", "monitor_counters": res["counts"], "predicate_failures": len(res["bads"]),
                "known_findings_hit": [{"id": f["id"], "count": c} for f, c in known], "exhaustive": False,
                "harness_build_s": round(build_s, 1)}
